@@ -47,7 +47,8 @@ def cases(tier, rng, boost=1):
         elif r < 0.8:
             ncol = rng.randint(1, 4)
             lens = [rng.randint(3, 30) for _ in range(rng.randint(1, 3))]
-            data = [[[round(rng.uniform(-5, 5), 3) for _ in range(ncol)] for _ in range(L)] for L in lens]
+            scale = rng.choice([5, 5, 2000, 9000])
+            data = [[[round(rng.uniform(-scale, scale), 3) for _ in range(ncol)] for _ in range(L)] for L in lens]
             yield _mk('gauss', data=data, sigma=rng.choice([1, 1.5, 2, 3, 5]), limits=rng.random() < 0.7)
         else:
             N = rng.randint(4, 60)
@@ -67,7 +68,8 @@ def real(case):
         out = core.call(lambda: [[int(x) for x in ch] for ch in _split_array(np.arange(case['n']), case['c'])])
         out.pop('msg', None)
         return out
-    d = tempfile.mkdtemp(prefix='msmverif_cli_')
+    d = os.path.join(tempfile.gettempdir(), 'msmverif_cli_%d' % os.getpid())    # same paths re-used by every case of this process
+    os.makedirs(d, exist_ok=True)
     runner = CliRunner()
     try:
         if case['op'] == 'coring':
@@ -138,7 +140,6 @@ def real(case):
     finally:
         for fn in os.listdir(d):
             os.unlink(os.path.join(d, fn))
-        os.rmdir(d)
 
 
 def request(case, obs):
